@@ -225,8 +225,11 @@ def _work(args):
     out = []
     for cfg in cfgs:
         try:
+            t0 = time.time()
             o = mod.evaluate(cfg)
-            out.append(o.pack())
+            pk = o.pack()
+            pk["wall"] = time.time() - t0
+            out.append(pk)
         except Exception:
             out.append({"cfg": cfg, "calls": 0, "validated": 0, "digests": [], "worst": 0.0,
                         "worst_name": None, "notes": {},
@@ -273,7 +276,12 @@ def run(mod, tier, replay=None, procs=None):
     procs = procs or int(os.environ.get("VERIF_PROCS", "0")) or min(16, os.cpu_count() or 1)
     chunk = max(1, min(getattr(mod, "CHUNK", 8), (len(cfgs) + procs * 4 - 1) // (procs * 4)))
     # round-robin-ish chunks in canonical order
-    jobs = [(mod.__name__, cfgs[i:i + chunk]) for i in range(0, len(cfgs), chunk)]
+    order = list(range(len(cfgs)))
+    if hasattr(mod, "cost"):
+        # dispatch expensive configurations first (load balance only; the set explored is unchanged)
+        order.sort(key=lambda i: -mod.cost(cfgs[i]))
+        chunk = 1
+    jobs = [(mod.__name__, [cfgs[j] for j in order[i:i + chunk]]) for i in range(0, len(cfgs), chunk)]
     results = []
     if procs == 1 or len(jobs) == 1:
         for j in jobs:
@@ -324,6 +332,14 @@ def run(mod, tier, replay=None, procs=None):
                     if "traceback" in v:
                         print(v["traceback"])
             exit_code = 1
+    if os.environ.get("VERIF_PROFILE"):
+        for r in sorted(results, key=lambda r: -r.get("wall", 0))[:12]:
+            print("PROFILE %.1fs %s" % (r.get("wall", 0), canon(r["cfg"])[:160]))
+        bykind = {}
+        for r in results:
+            k = str(r["cfg"].get("kind", r["cfg"].get("test", "")))
+            bykind[k] = bykind.get(k, 0) + r.get("wall", 0)
+        print("PROFILE by kind:", {k: round(v, 1) for k, v in bykind.items()})
     for k in known.get("open", []):
         if k["property"] == pid and known_hit.get(k["key"]):
             print("KNOWN-FINDING: property=%s %s (%d configurations)" % (pid, k["what"], known_hit[k["key"]]))
